@@ -41,6 +41,7 @@ def norm_crlf(s):
 
 class Prop(BaseProp):
     ID = "C04"
+    PIPELINES = True      # a fixed share of the cases goes through cminx.main (-o and stdout) instead of the Documenter
     ANCHORS = ['cminx.aggregator:DocumentationAggregator.clean_doc_lines', 'cminx.aggregator:DocumentationAggregator.enterCommand_invocation']
     LEVEL = "exploration"
     RULE = ("one abstract module rendered under k layouts (inter-token spaces/tabs/newlines, 20 line-comment and 13 "
